@@ -120,7 +120,7 @@ ADDED8 = {
  "C20": (" + a reader that takes the first line of a long output and leaves (EPIPE after a success)", ""),
  "C18": (" + every style option on every foreign output style, alone and in pairs", ""),
  "C11": (" + rows longer than 1 KiB / 8 KiB / 64 KiB between small rows in every output style", ""),
- "C06": (" + byte order marks, whole or cut short, as the first bytes of the input under every policy", ""),
+ "C06": (" + byte order marks, whole or cut short, as the first bytes of the input under every policy; strings that go wrong at an escape among the noise tokens; inputs of several hundred malformed regions whose every region must be named by a diagnostic (Trace_C06!CheckAttrib)", ""),
  "C12": (" + an inner set without a value under an outer binding of the same name", ""),
 }
 
